@@ -112,3 +112,16 @@ def bracket_patterns(maxtok: int = 4):
 
 def random_bracket(R, maxtok: int = 7) -> str:
     return '[' + ''.join(R.choice(BRACKET_TOKS) for _ in range(R.randint(1, maxtok))) + ']'
+
+
+# Parser-state coverage: WcParse carries state across tokens (after_start, in_list, inv_nest,
+# inv_ext, match_dot_dir, matchbase); enumerate short sequences of *tokens*, not characters.
+STATE_TOKS = ['a', '.', '/', '*', '**', '?', '[a]', '@(.a)', '!(b)', '?(x)', '*(.|a)', '+(a)', '@(a|.b)', '!(.)', '\\.', '..',
+              '|', '(', ')', '!(a|*(b))']
+
+
+def token_sequences(maxlen: int, toks=None):
+    toks = toks or STATE_TOKS
+    for L in range(1, maxlen + 1):
+        for t in itertools.product(toks, repeat=L):
+            yield ''.join(t)
